@@ -118,6 +118,16 @@ CHECKS["C12"] = dict(technique=FN, category="model_checking", ref="DESIGN.md sec
           "the files they name), and 4k-30k random records are judged by TLC with rejecting canaries."),
     note=TB + " Outcomes the statement leaves open are accepted as sets (listed in evidence assumptions).")
 
+CHECKS["C17"] = dict(technique="TLA+ specification as oracle for the decoding contract (TLC enumerates utmp files, mount tables and entry-point x argument-class rows); every row executed through the real C extension rebuilt with AddressSanitizer+UBSan (memory safety observed, not decided)", category="other", ref="DESIGN.md section 3 C17 and section 4",
+    text=("CExt.tla enumerates 900 utmp files (record type x fill class of user/line/host incl. full-width fields without "
+          "terminator, ':0'/':0.0'), 480 mount tables (devices with escapes, 'none', nodev/zfs types, all flag) and 110 "
+          "(entry point, argument class) rows (ints from -2^63 to 2^64, names of length 0/15/16/17/4096, embedded NUL, wrong types, "
+          "CPU sequences with negative/huge/duplicate members); TLC checks field-width, record-type and filter invariants. Each "
+          "row runs through the extension built from the working tree with clang ASan+UBSan: utmp via a private mount namespace "
+          "(tmpfs over /run), mounts via PROCFS_PATH; rows are compared with the specification and any sanitizer report or "
+          "abnormal exit is a violation. net_if_addrs/net_if_stats are compared with /sys/class/net and if_nameindex live."),
+    note="Memory safety is outside the expressive power of TLA+: absence of sanitizer reports covers only the enumerated input classes. Trusted base: TLC, the sanitizer runtimes, the live kernel's /sys/class/net.")
+
 PENDING = "check under construction in this round (see DESIGN.md section 6 work order)"
 NA = {}
 
